@@ -12,8 +12,10 @@ import (
 
 // The lab: two HTTPS origins and one plain-HTTP listener that answers for both names on port 80.
 const (
-	hostOrigin = "origin.verif-lab.nl"
-	hostOther  = "other.verif-lab.nl"
+	hostOrigin   = "origin.verif-lab.nl"
+	hostOther    = "other.verif-lab.nl"
+	hostIP       = "192.0.2.10" // TEST-NET-1; only ever dialled inside the lab
+	hostReserved = "node.localhost"
 )
 
 var (
@@ -27,7 +29,9 @@ func theLab() *netlab.Lab {
 		lab = netlab.New(labHandler)
 		lab.AddTLS("origin-tls", hostOrigin+":443")
 		lab.AddTLS("other-tls", hostOther+":443")
-		lab.AddPlain("plain", hostOrigin+":80", hostOther+":80")
+		lab.AddTLS("ip-tls", hostIP+":443")
+		lab.AddTLS("reserved-tls", hostReserved+":443")
+		lab.AddPlain("plain", hostOrigin+":80", hostOther+":80", hostIP+":80", hostReserved+":80")
 		lab.Install()
 	})
 	return lab
@@ -44,6 +48,9 @@ func nextNonce() string { return fmt.Sprintf("n%d", nonce.Add(1)) }
 //	rr<code>-<target>       redirect to https same host r<code>-<target> first (two hops)
 func labHandler(listener string, w nethttp.ResponseWriter, r *nethttp.Request) {
 	segs := strings.Split(strings.TrimPrefix(r.URL.Path, "/"), "/")
+	if len(segs) >= 3 && segs[0] == ".well-known" { // RFC 8414 style: /.well-known/<name>/<issuer path>
+		segs = segs[2:]
+	}
 	if len(segs) < 2 {
 		nethttp.Error(w, "no such thing", 404)
 		return
